@@ -1,0 +1,53 @@
+//go:build verif
+
+package quotaresource
+
+import (
+	publictypes "lunar/engine/streams/public-types"
+)
+
+// Exporting shims for the external verification harness (property C02, suite
+// "member"). Add-only, compiled only with the build tag "verif"; no behaviour
+// of its own: each function calls the unexported method and reports what it
+// returned.
+
+// VerifC02Member returns what generateMember writes for reqID with the quota's
+// own request expiry (the call Inc makes). ok=false when q is not a concurrent quota.
+func VerifC02Member(q publictypes.QuotaResourceI, reqID string) (member string, ok bool) {
+	cs, isCS := q.(*concurrentStrategy)
+	if !isCS {
+		return "", false
+	}
+	return cs.generateMember(reqID, cs.requestExpireTime), true
+}
+
+// VerifC02Parsed is what one item of a GC pass observed.
+type VerifC02Parsed struct {
+	Err        string // error of extractMemberFromItem ("" = none)
+	Found      bool
+	ReqID      string
+	InstanceID string
+	Remaining  int64 // parsedMember.ExpiryTime in ns
+	Collected  bool  // validateMemberIntegrity returned false (SRem + delete branch)
+}
+
+// VerifC02Extract runs the body of checkForExpiredRequests' loop on one item:
+// extractMemberFromItem, and, unless it failed (the loop continues),
+// validateMemberIntegrity. ok=false when q is not a concurrent quota.
+func VerifC02Extract(q publictypes.QuotaResourceI, item string) (res VerifC02Parsed, ok bool) {
+	cs, isCS := q.(*concurrentStrategy)
+	if !isCS {
+		return res, false
+	}
+	parsed, err := cs.extractMemberFromItem(item)
+	if err != nil {
+		res.Err = err.Error()
+		return res, true
+	}
+	res.Found = parsed.Found
+	res.ReqID = parsed.ReqID
+	res.InstanceID = parsed.InstanceID
+	res.Remaining = int64(parsed.ExpiryTime)
+	res.Collected = !cs.validateMemberIntegrity(parsed)
+	return res, true
+}
